@@ -543,7 +543,7 @@ func ruleValidatorGuards(c *Ctx, rule string) {
 			}
 			n++
 			other := ""
-			for _, dc := range dominatingConds(in.Block()) {
+			for _, dc := range controlConds(in.Block()) {
 				for _, lf := range condLeaves(dc.cond, dc.onTrue) {
 					if a, _, ok := c.An.AtomOf(lf.v); ok && (strings.HasPrefix(a.Key, "hdr.") && strings.HasSuffix(a.Key, ".present") || strings.HasPrefix(a.Key, "nil:")) {
 						continue
